@@ -25,7 +25,7 @@ def _run_shard(exe, jobs, workdir, idx, env, attempt_budget=1):
                 f.write(job_line(j) + "\n")
         if os.path.exists(ef):
             os.remove(ef)
-        budget = sum(int(j.get("budget_ms", 20000)) for j in pending) / 1000.0 * 3 + 60
+        budget = min(6 * 3600.0, sum(int(j.get("budget_ms", 20000)) for j in pending) / 1000.0 * 3 + 60)   # (poll() cannot take more than ~24 days)
         try:
             r = subprocess.run([exe, jf, ef], capture_output=True, text=True, errors="replace", timeout=budget, env=env)
             rc, err = r.returncode, r.stderr
